@@ -173,15 +173,15 @@ func c27exec(st *State, line string) Result {
 		sk, pk, th := crypto.Key(signer), crypto.Key(payee), crypto.Hash(tx)
 		switch f[0] {
 		case "pledge":
-			werr = store.VerifWriteNodePledge(sk, pk, th, ts)
+			werr = store.VerifC27WriteNodePledge(sk, pk, th, ts)
 		case "accept":
-			werr = store.VerifWriteNodeAccept(sk, pk, th, ts, false)
+			werr = store.VerifC27WriteNodeAccept(sk, pk, th, ts, false)
 		case "cancel":
-			werr = store.VerifWriteNodeCancel(sk, pk, th, ts)
+			werr = store.VerifC27WriteNodeCancel(sk, pk, th, ts)
 		case "remove":
-			werr = store.VerifWriteNodeRemove(sk, pk, th, ts)
+			werr = store.VerifC27WriteNodeRemove(sk, pk, th, ts)
 		case "genesis":
-			werr = store.VerifWriteNodeAccept(sk, pk, th, ts, true)
+			werr = store.VerifC27WriteNodeAccept(sk, pk, th, ts, true)
 		default:
 			panic("harness: c27 unknown op " + f[0])
 		}
